@@ -51,16 +51,38 @@ class Boom(Exception):
 # The unexpected exception is raised with a VARIETY of classes: classes that the machinery itself catches somewhere
 # (IndexError around `args.pop(0)`, KeyError around caches, ...) are where a slip would swallow a resolver's exception.
 # (StopIteration is left out: Python itself rewrites it to RuntimeError inside coroutines and asyncio futures refuse it.)
-UNEXPECTED_CLASSES = (Boom, IndexError, KeyError, AttributeError, TypeError, ValueError, RuntimeError, LookupError,
-                      ZeroDivisionError, AssertionError, OSError, NotImplementedError)
+class WithExtensions(Exception):
+    """not a GraphQL error, but carries an `extensions` attribute like ResolverError does"""
+    extensions = {"code": "X"}
 
+
+def _library_unexpected():
+    """library exception classes that are NOT ResolverError: a resolver raising one of them must surface like any other"""
+    from py_gql import exc
+    return (
+        lambda m: exc.CoercionError(m),
+        lambda m: exc.ValidationError(m),
+        lambda m: exc.GraphQLSyntaxError(m, 0, "{ x }"),
+        lambda m: exc.SchemaError(m),
+        lambda m: exc.InvalidValue(m),
+        lambda m: exc.ScalarSerializationError(m),
+        lambda m: exc.GraphQLError(m),
+    )      # ExecutionError is the subject of a named probe (finding E5): the entry point turns it into a response when synchronous
+
+
+UNEXPECTED_CLASSES = (Boom, IndexError, KeyError, AttributeError, TypeError, ValueError, RuntimeError, LookupError,
+                      ZeroDivisionError, AssertionError, OSError, NotImplementedError, WithExtensions,
+                      "lib0", "lib1", "lib2", "lib3", "lib4", "lib5", "lib6")
 
 CLASS_SALT = 0      # rotated by the checker so that every field position sees every class
 
 
 def make_unexpected(path):
     cls = UNEXPECTED_CLASSES[(sum(map(ord, str(path))) + CLASS_SALT) % len(UNEXPECTED_CLASSES)]
-    err = cls("harness-unexpected at %r" % (path,))
+    if isinstance(cls, str):
+        err = _library_unexpected()[int(cls[3:])]("harness-unexpected at %r" % (path,))
+    else:
+        err = cls("harness-unexpected at %r" % (path,))
     err._harness_unexpected = True
     return err
 
@@ -583,6 +605,8 @@ class World:
         self.ev("body", path)
         try:
             if fo["r"] == "rerr":
+                if sum(map(ord, str(path))) % 3 == 0:
+                    raise _resolver_error_cls()("resolver error at %r" % (path,), extensions={"code": len(path)})
                 raise _resolver_error_cls()("resolver error at %r" % (path,))
             if fo["r"] == "exc":
                 self.boom_raised += 1
@@ -868,7 +892,7 @@ def pick(schedule, step, n):
     return (schedule[step] if step < len(schedule) else 0) % n
 
 
-def run_blocking(case, generic=False):
+def run_blocking(case, generic=False, subclass=False):
     """BlockingExecutor, or the generic Executor on BlockingRuntime. No schedule."""
     from py_gql import process_graphql_query
     from py_gql.execution import BlockingExecutor, Executor
@@ -878,7 +902,8 @@ def run_blocking(case, generic=False):
     with watchdog():
         try:
             # the reference run goes through the full pipeline (document text, default validators)
-            res = process_graphql_query(schema, doc if generic else document(case), context=w, root=w.root_value(), runtime=BlockingRuntime(),
+            rt_cls = runtime_subclasses()["SubBlocking"] if subclass else BlockingRuntime
+            res = process_graphql_query(schema, doc if generic else document(case), context=w, root=w.root_value(), runtime=rt_cls(),
                                         validators=[] if generic else None,
                                         executor_cls=Executor if generic else BlockingExecutor)
         except Watchdog:
@@ -888,14 +913,76 @@ def run_blocking(case, generic=False):
     return obs_of_result(w, result=res, status="ok")
 
 
-def run_threadpool(case, schedule):
+_SUBCLASSES = {}
+
+
+def runtime_subclasses():
+    """
+    USER RUNTIMES: identity subclasses of the three stock runtimes, a BlockingRuntime SUBCLASS that defers work to a pool
+    (futures it knows how to chain / gather / unwrap), and a runtime implementing the `Runtime` base directly.
+    The pool is always the harness' manual executor (`_inner`), so completion order stays under control.
+    """
+    if _SUBCLASSES:
+        return _SUBCLASSES
+    import functools
+    from py_gql.execution.runtime import AsyncIORuntime, BlockingRuntime, ThreadPoolRuntime
+    from py_gql.execution.runtime import threadpool as tp
+    from py_gql.execution.runtime.base import Runtime
+
+    class SubThreadPool(ThreadPoolRuntime):
+        pass
+
+    class SubAsyncIO(AsyncIORuntime):
+        pass
+
+    class SubBlocking(BlockingRuntime):
+        pass
+
+    class _PoolMixin:
+        def submit(self, func, *args, **kwargs):
+            return self._inner.submit(func, *args, **kwargs)
+
+        def ensure_wrapped(self, value):
+            if tp._is_future_fast(value):
+                return value
+            outer = Future()
+            outer.set_result(value)
+            return outer
+
+        def map_value(self, value, then, else_=None):
+            return tp.chain(value, then, else_)
+
+        def gather_values(self, values):
+            return tp.gather_futures(values)
+
+        def unwrap_value(self, value):
+            return tp.unwrap_future(value)
+
+        def wrap_callable(self, func):
+            return functools.partial(self._inner.submit, func)
+
+    class PoolBackedBlocking(_PoolMixin, BlockingRuntime):
+        """derives from BlockingRuntime but off-loads resolvers to a pool"""
+
+    class DirectRuntime(_PoolMixin, Runtime):
+        """implements the Runtime base directly"""
+
+    _SUBCLASSES.update({"SubThreadPool": SubThreadPool, "SubAsyncIO": SubAsyncIO, "SubBlocking": SubBlocking,
+                        "PoolBackedBlocking": PoolBackedBlocking, "DirectRuntime": DirectRuntime})
+    return _SUBCLASSES
+
+
+def run_threadpool(case, schedule, runtime=None):
     from py_gql import process_graphql_query
     from py_gql.execution import Executor
     from py_gql.execution.runtime import ThreadPoolRuntime
     w = ThreadPoolWorld(case)
     schema, doc = prepared(case)
-    rt = ThreadPoolRuntime(max_workers=1)
-    rt._inner.shutdown(wait=False)
+    if runtime in (None, "SubThreadPool"):
+        rt = (ThreadPoolRuntime if runtime is None else runtime_subclasses()[runtime])(max_workers=1)
+        rt._inner.shutdown(wait=False)
+    else:
+        rt = runtime_subclasses()[runtime]()
     rt._inner = ManualExecutor(w)
     steps = 0
     try:
@@ -922,10 +1009,12 @@ def run_threadpool(case, schedule):
         return obs_of_result(w, status="hang", steps=steps)
 
 
-def run_asyncio(case, schedule):
+def run_asyncio(case, schedule, runtime=None):
     from py_gql import process_graphql_query
     from py_gql.execution import Executor
     from py_gql.execution.runtime import AsyncIORuntime
+    if runtime is not None:
+        AsyncIORuntime = runtime_subclasses()[runtime]
     loop = private_loop()
     # resolver style: per case either a mix of returned futures and genuine coroutines, or ALL genuine gated coroutines
     all_gated = sum(map(ord, json.dumps(case, sort_keys=True))) % 2 == 0
@@ -976,7 +1065,13 @@ def run_asyncio(case, schedule):
             close_private_loop()
 
 
-RUNNERS = {"threadpool": run_threadpool, "asyncio": run_asyncio}
+RUNNERS = {"threadpool": run_threadpool, "asyncio": run_asyncio,
+           # user runtimes (subclasses): same worlds, same schedules, same oracles
+           "threadpool/SubThreadPool": lambda c, s: run_threadpool(c, s, "SubThreadPool"),
+           "threadpool/PoolBackedBlocking(BlockingRuntime)": lambda c, s: run_threadpool(c, s, "PoolBackedBlocking"),
+           "threadpool/DirectRuntime(Runtime)": lambda c, s: run_threadpool(c, s, "DirectRuntime"),
+           "asyncio/SubAsyncIO": lambda c, s: run_asyncio(c, s, "SubAsyncIO")}
+SUBCLASS_CONFIGS = tuple(k for k in RUNNERS if "/" in k)
 
 
 def confirm_hang(case, config, schedule):
